@@ -744,11 +744,21 @@ class Session:
                                 rec["by"] = kid
                                 notes.append("%s verifies over %s" % (os.path.basename(q), name))
             files.append(rec)
-        # hashes printed: the k-th "App hash:" line belongs to the k-th image of the list
-        hashes = []
-        for k, m in enumerate(re.finditer(r"^App hash: ([0-9a-fA-F]{64})\s*$", out, re.M)):
-            if k < len(imgs):
-                hashes.append({"img": imgs[k], "ok": True, "digest": list(bytes.fromhex(m.group(1)))})
+        # hashes printed: an "App hash:" line belongs to the image named by the "Computing hash for"
+        # line before it
+        hashes, cur_img = [], None
+        by_name = {}
+        for i, rel in self.img_paths.items():
+            by_name[rel] = i
+            by_name[os.path.join(root, rel)] = i
+        for line in out.splitlines():
+            m = re.match(r"^Computing hash for '(.*)'\.\.\.\s*$", line)
+            if m:
+                cur_img = by_name.get(m.group(1))
+                continue
+            m = re.match(r"^App hash: ([0-9a-fA-F]{64})\s*$", line)
+            if m and cur_img is not None:
+                hashes.append({"img": cur_img, "ok": True, "digest": list(bytes.fromhex(m.group(1)))})
         run = {"imgs": list(imgs), "pub": {"k": "pub", "n": pubn}, "gens": list(gens), "exit": code,
                "files": files, "outleak": leaks((out + "\n" + err).encode(), needles), "hashes": hashes}
         info = {"argv": argv, "stdout": out[-600:], "stderr": err[-300:], "exc": exc, "notes": notes,
